@@ -810,7 +810,10 @@ class Dict(dict, base.Symbolic, pg_typing.CustomTyping):
         value.sym_setpath(utils.KeyPath())
 
     if value_spec:
-      self.use_value_spec(value_spec, self._allow_partial)
+      # NOTE: resetting the fields to their defaults is part of `clear`, which
+      # is not an accessor write.
+      with flags.allow_writable_accessors(True):
+        self.use_value_spec(value_spec, self._allow_partial)
 
     if flags.is_change_notification_enabled():
       # NOTE: a dict with a value spec is reset to its default values.
